@@ -231,7 +231,8 @@ def sorting(ctx, fx):
              "sort(): at most 1024 elements -> std::sort with the caller's comparator; otherwise a for_each over the whole range "
              "with sort_helper(comp). sort_helper: below the cut-off std::sort(bounds, comp); otherwise partition around the "
              "pivot value with comp bound to it, push [first, pivot) if non-empty, skip the elements equivalent to the pivot, "
-             "push [pivot', second) if non-empty")
+             "push [pivot', second) if non-empty; progress: as no element is set aside the step can return the range unchanged, so "
+             "the pivot draw is randomised (choose_rand reaches rand())")
     fs = [f for f in insts(fx, P + "sort") if len(f["params"]) == 3]
     ctx.floor("ParallelSTL::sort(first, last, comp)", len(fs), 1)
     for f in fs:
@@ -279,6 +280,52 @@ def sorting(ctx, fx):
         if len(fi) != 1 or [S(x) for x in fi[0].get("a", [])][:2] != ["pivot", "bounds.second"]:
             det.append("pivot-equivalent elements are not skipped from the right part")
         ctx.ob("C16.sort.shape", P + "sort_helper::operator()", not det, "; ".join(sorted(set(det))), fn.loc(), "helper", fnkey=f["key"])
+        # progress. The step can hand back the very range it was given: when the pivot value is the minimum nothing moves in
+        # front of it, the lower part is empty, and the skip of pivot-equivalent elements stops at once if the first element is
+        # larger -- the upper push is then (first, second) again. This is the case exactly when the upper range starts at the
+        # variable that partition / find_if returned (no element is set aside). The retry only makes progress because it
+        # draws a DIFFERENT pivot: the draw has to be randomised; a deterministic choice (first, middle, median of three)
+        # picks the same minimum again and the loop never ends.
+        det = []
+        up = [e for _, e in pu if S(e["a"][0]).startswith("make_pair(") and S(e["a"][0]).endswith(",bounds.second)")]
+        may_repeat = False
+        for e in up:
+            first_comp = S(e["a"][0])[len("make_pair("):-len(",bounds.second)")]
+            asg = [x for _, x in fn.events(lambda x: (x.get("k") == "assign" and x.get("lp") == first_comp) or
+                                           (x.get("k") == "call" and x.get("op") == "=" and S(x.get("recv") or {}) == first_comp))]
+            if re.fullmatch(r"\w+", first_comp) and asg and all(
+                    re.match(r"(std::)?(find_if|partition|find_if_not|stable_partition)\(", (x.get("rp") if x.get("k") == "assign" else S(x["a"][0])) or "")
+                    for x in asg):
+                may_repeat = True
+        if may_repeat:
+            RAND = {"rand", "random", "rand_r", "drand48", "lrand48", "mrand48"}
+
+            def randomised(g, depth=3, seen=None):
+                seen = seen if seen is not None else set()
+                if g is None or g["key"] in seen or depth < 0:
+                    return False
+                seen.add(g["key"])
+                for b in g.get("blocks", []):
+                    for x in b["ev"]:
+                        if x.get("k") != "call":
+                            continue
+                        if x.get("name") in RAND or "random_device" in (x.get("fn") or "") or "mersenne_twister" in (x.get("fn") or "") \
+                                or "uniform_int_distribution" in (x.get("fn") or ""):
+                            return True
+                        if randomised(fx.callee(x), depth - 1, seen):
+                            return True
+                return False
+            draws = [x for _, x in fn.events(lambda x: x.get("k") == "decl" and x.get("n") == "pivot" and "init" in x)]
+            ok = False
+            for d in draws:
+                for y in walk(d["init"]):
+                    if isinstance(y, dict) and y.get("k") == "call" and (y.get("name") in RAND or randomised(fx.callee(y))):
+                        ok = True
+            if not ok:
+                det.append("the step can push the range it was given unchanged (pivot = minimum, first element larger) and the "
+                           "pivot is a deterministic function of the range (%s): the same pivot is chosen on every retry and the "
+                           "sort never returns" % (S(draws[0]["init"]) if draws else "no draw found"))
+        ctx.ob("C16.sort.shape", P + "sort_helper::operator()", not det, "; ".join(det), fn.loc(), "progress", fnkey=f["key"])
     for f in insts(fx, P + "sort_helper::neq_to::operator()")[:2]:
         fn = ctx.fn(f)
         rets = {S(e.get("e")).replace(" ", "") for _, e in fn.events(lambda e: e["k"] == "ret")}
